@@ -13,6 +13,7 @@ import (
 	"strings"
 	"sync"
 	"sync/atomic"
+	"time"
 
 	"github.com/regclient/regclient/internal/pqueue"
 	"github.com/regclient/regclient/internal/reqmeta"
@@ -21,8 +22,24 @@ import (
 
 // QueueCfg configures one throttle.
 type QueueCfg struct {
-	Max  int    `json:"max"`  // 1..3
-	Next string `json:"next"` // "" = default (oldest first), "data" = reqmeta.DataNext
+	// Max as passed to pqueue.New: -1, 0 (both documented to default to 1, ocidir.WithThrottle can pass them) or 1..64
+	// (reghttp: config.Host.ReqConcurrent, regsync/regbot: defaults.parallel - any positive number).
+	Max int `json:"max"`
+	// Next: "" = default (oldest first), "data" = reqmeta.DataNext (reqmeta.Data queues only), and functions whose
+	// result pqueue has to validate: "neg" (-1), "big" (beyond the end), "last" (newest first).
+	Next string `json:"next"`
+	// Elem: "" = reqmeta.Data, "empty" = struct{} (cmd/regsync, cmd/regbot).
+	Elem string `json:"elem,omitempty"`
+	// Nil: the queue pointer is nil (reghttp host with reqConcurrent <= 0): Acquire/TryAcquire are no-ops that succeed.
+	Nil bool `json:"nil,omitempty"`
+}
+
+// limit is the effective limit of a queue.
+func (q QueueCfg) limit() int {
+	if q.Max <= 0 {
+		return 1
+	}
+	return q.Max
 }
 
 // Op is one step of a worker program. All fields are reduced modulo the
@@ -36,7 +53,13 @@ type QueueCfg struct {
 //	rel        release held handle number H
 //	relstale   call an already used release function once more (a caller that holds nothing)
 //	cancel     cancel the current context of worker W (possibly the caller itself); without P only
-//	           when W is inside a blocking pqueue call at that moment
+//	           when W is inside a blocking pqueue call at that moment; with A the root context all
+//	           workers' contexts derive from (regsync/regbot: one signal context for every step)
+//	expire     the worker's own context is replaced by one whose deadline has already passed
+//
+// acq/try/multi with X use the context returned by the worker's most recent held AcquireMulti as their
+// context (queue of that set: as "nested"; other queue of the same element type or another AcquireMulti:
+// documented to fail; queue of another element type: the value is to be ignored).
 type Op struct {
 	K  string `json:"k"`
 	Q  int    `json:"q,omitempty"`
@@ -47,6 +70,9 @@ type Op struct {
 	DS int64  `json:"ds,omitempty"` // reqmeta.Data.Size of the entry
 	Y  bool   `json:"y,omitempty"`  // free engine: runtime.Gosched before the op
 	P  bool   `json:"p,omitempty"`  // cancel: also when the target is not inside a blocking call (its next call then starts with a cancelled context)
+	A  bool   `json:"a,omitempty"`  // cancel: the shared root context
+	X  bool   `json:"x,omitempty"`  // acq/try/multi: call with the context of the held AcquireMulti
+	G  bool   `json:"g,omitempty"`  // rel: call the release function from another goroutine (sched: and wait for it; free: concurrently)
 }
 
 // Case is one generated input: queues, worker programs and (owned-schedule
@@ -62,36 +88,51 @@ type Case struct {
 	Workers  [][]Op     `json:"workers"`
 	Schedule []int      `json:"schedule,omitempty"`
 	Procs    int        `json:"procs,omitempty"` // free engine: GOMAXPROCS
+	Tmpl     string     `json:"tmpl,omitempty"`  // generator template the case came from (label only)
 }
 
 // normalise clamps a (possibly hand-edited) case into the stated domain.
 func (c *Case) normalise() {
-	if len(c.Queues) == 0 {
-		c.Queues = []QueueCfg{{Max: 1}}
+	qs := append([]QueueCfg(nil), c.Queues...)
+	if len(qs) == 0 {
+		qs = []QueueCfg{{Max: 1}}
 	}
-	if len(c.Queues) > 3 {
-		c.Queues = c.Queues[:3]
+	if len(qs) > 3 {
+		qs = qs[:3]
 	}
-	for i := range c.Queues {
-		if c.Queues[i].Max < 1 {
-			c.Queues[i].Max = 1
+	if c.Elem != "empty" {
+		c.Elem = ""
+	}
+	for i := range qs {
+		if qs[i].Max < -1 {
+			qs[i].Max = -1
 		}
-		if c.Queues[i].Max > 3 {
-			c.Queues[i].Max = 3
+		if qs[i].Max > 64 {
+			qs[i].Max = 64
+		}
+		if c.Elem == "empty" { // case-wide form (older replays): every queue as regsync/regbot configure it
+			qs[i].Elem = "empty"
+			qs[i].Next = ""
+		}
+		if qs[i].Elem != "empty" {
+			qs[i].Elem = ""
+		}
+		switch qs[i].Next {
+		case "", "neg", "big", "last":
+		case "data":
+			if qs[i].Elem == "empty" {
+				qs[i].Next = ""
+			}
+		default:
+			qs[i].Next = ""
 		}
 	}
+	c.Queues = qs
 	if len(c.Workers) > 5 {
 		c.Workers = c.Workers[:5]
 	}
 	for len(c.Workers) < 1 {
 		c.Workers = append(c.Workers, nil)
-	}
-	if c.Elem != "empty" {
-		c.Elem = ""
-	} else {
-		for i := range c.Queues {
-			c.Queues[i].Next = "" // regsync/regbot use the default priority function
-		}
 	}
 	if c.Procs < 1 {
 		c.Procs = 4
@@ -140,8 +181,8 @@ type worker struct {
 
 type run struct {
 	c       Case
-	qs      qset
-	max     []int
+	tqs     []tq
+	max     []int // effective limit (huge for a nil queue)
 	holders []atomic.Int32
 	ws      []*worker
 	aborted atomic.Bool
@@ -152,71 +193,131 @@ type run struct {
 	viol   *evid.Violation
 	events map[string]int
 
+	rootMu     sync.Mutex // the context every worker context derives from
+	root       context.Context
+	rootCancel context.CancelFunc
+
+	asyncRelease bool           // free engine: rel with G runs concurrently
+	helpers      sync.WaitGroup // goroutines releasing on behalf of a worker
+	helperN      atomic.Int32
+
 	// yield is called by the interpreter between operations.
 	yield func(w *worker, point string, op *Op)
 }
 
-// qset hides the element type of the queues under test from the interpreter.
-type qset interface {
-	acquire(ctx context.Context, q int, d reqmeta.Data) (func(), error)
-	try(ctx context.Context, q int, d reqmeta.Data) (func(), error)
-	// multi calls AcquireMulti; a list entry <0 is a nil queue.
-	multi(ctx context.Context, d reqmeta.Data, list []int) (context.Context, func(), error)
+// tq is one queue under test, of either element type. A nil queue keeps both pointers nil.
+type tq struct {
+	empty bool
+	d     *pqueue.Queue[reqmeta.Data]
+	e     *pqueue.Queue[struct{}]
 }
 
-type qsetT[T any] struct {
-	qs   []*pqueue.Queue[T]
-	conv func(reqmeta.Data) T
+func (t *tq) acquire(ctx context.Context, d reqmeta.Data) (func(), error) {
+	if t.empty {
+		return t.e.Acquire(ctx, struct{}{})
+	}
+	return t.d.Acquire(ctx, d)
 }
 
-func (s *qsetT[T]) acquire(ctx context.Context, q int, d reqmeta.Data) (func(), error) {
-	return s.qs[q].Acquire(ctx, s.conv(d))
+func (t *tq) try(ctx context.Context, d reqmeta.Data) (func(), error) {
+	if t.empty {
+		return t.e.TryAcquire(ctx, struct{}{})
+	}
+	return t.d.TryAcquire(ctx, d)
 }
 
-func (s *qsetT[T]) try(ctx context.Context, q int, d reqmeta.Data) (func(), error) {
-	return s.qs[q].TryAcquire(ctx, s.conv(d))
-}
-
-func (s *qsetT[T]) multi(ctx context.Context, d reqmeta.Data, list []int) (context.Context, func(), error) {
-	l := make([]*pqueue.Queue[T], len(list))
-	for i, q := range list {
+// callMulti calls AcquireMulti of the given element type; an entry <0 is a nil queue.
+func (r *run) callMulti(ctx context.Context, d reqmeta.Data, entries []int, empty bool) (context.Context, func(), error) {
+	if empty {
+		l := make([]*pqueue.Queue[struct{}], len(entries))
+		for i, q := range entries {
+			if q >= 0 {
+				l[i] = r.tqs[q].e
+			}
+		}
+		return pqueue.AcquireMulti(ctx, struct{}{}, l...)
+	}
+	l := make([]*pqueue.Queue[reqmeta.Data], len(entries))
+	for i, q := range entries {
 		if q >= 0 {
-			l[i] = s.qs[q]
+			l[i] = r.tqs[q].d
 		}
 	}
-	return pqueue.AcquireMulti(ctx, s.conv(d), l...)
+	return pqueue.AcquireMulti(ctx, d, l...)
+}
+
+// mkNext builds the priority function of a queue. Results outside the list are legal input for pqueue
+// ("validate response"), so the harness hands them through unchanged.
+func mkNext[T any](r *run, kind string, data func(queued, active []*T) int) func(queued, active []*T) int {
+	if kind == "" || (kind == "data" && data == nil) {
+		return nil
+	}
+	return func(queued, active []*T) int {
+		i := 0
+		switch kind {
+		case "neg":
+			i = -1
+		case "big":
+			i = len(queued) + 7
+		case "last":
+			i = len(queued) - 1
+		case "data":
+			i = data(queued, active)
+			if len(active) >= 2 {
+				r.event("next:data-with-2+active")
+			}
+			if i > 0 {
+				r.event("next:data-picked-not-oldest")
+			}
+		}
+		r.event("next:" + kind + "-called")
+		return i
+	}
 }
 
 func newRun(c Case) *run {
 	r := &run{c: c, events: map[string]int{}}
 	r.max = make([]int, len(c.Queues))
 	r.holders = make([]atomic.Int32, len(c.Queues))
+	r.tqs = make([]tq, len(c.Queues))
 	for i, qc := range c.Queues {
-		r.max[i] = qc.Max
-	}
-	if c.Elem == "empty" {
-		qs := &qsetT[struct{}]{conv: func(reqmeta.Data) struct{} { return struct{}{} }}
-		for _, qc := range c.Queues {
-			qs.qs = append(qs.qs, pqueue.New(pqueue.Opts[struct{}]{Max: qc.Max}))
+		r.max[i] = qc.limit()
+		r.tqs[i].empty = qc.Elem == "empty"
+		if qc.Nil {
+			r.max[i] = 1 << 30
+			continue
 		}
-		r.qs = qs
-	} else {
-		qs := &qsetT[reqmeta.Data]{conv: func(d reqmeta.Data) reqmeta.Data { return d }}
-		for _, qc := range c.Queues {
-			o := pqueue.Opts[reqmeta.Data]{Max: qc.Max}
-			if qc.Next == "data" {
-				o.Next = reqmeta.DataNext
-			}
-			qs.qs = append(qs.qs, pqueue.New(o))
+		if qc.Elem == "empty" {
+			r.tqs[i].e = pqueue.New(pqueue.Opts[struct{}]{Max: qc.Max, Next: mkNext[struct{}](r, qc.Next, nil)})
+		} else {
+			r.tqs[i].d = pqueue.New(pqueue.Opts[reqmeta.Data]{Max: qc.Max, Next: mkNext(r, qc.Next, reqmeta.DataNext)})
 		}
-		r.qs = qs
 	}
+	r.root, r.rootCancel = context.WithCancel(context.Background())
 	for i, p := range c.Workers {
 		w := &worker{id: i, prog: p, resume: make(chan struct{}), point: "start"}
-		w.ctx, w.cancel = context.WithCancel(context.Background())
+		w.ctx, w.cancel = context.WithCancel(r.root)
 		r.ws = append(r.ws, w)
 	}
 	return r
+}
+
+func (r *run) rootCtx() context.Context {
+	r.rootMu.Lock()
+	defer r.rootMu.Unlock()
+	return r.root
+}
+
+// cancelRoot cancels the context all current worker contexts derive from and installs a new one.
+func (r *run) cancelRoot() {
+	r.rootMu.Lock()
+	old := r.rootCancel
+	r.root, r.rootCancel = context.WithCancel(context.Background())
+	if r.aborted.Load() {
+		r.rootCancel()
+	}
+	r.rootMu.Unlock()
+	old()
 }
 
 func (r *run) event(l string) {
@@ -264,11 +365,22 @@ func (w *worker) cancelCur() {
 
 // renew gives the worker a fresh context after a call failed with a cancelled one.
 func (w *worker) renew(r *run) {
+	root := r.rootCtx()
 	w.mu.Lock()
-	w.ctx, w.cancel = context.WithCancel(context.Background())
+	w.cancel() // no-op for the usual case of an already cancelled context; detaches it from its parent
+	w.ctx, w.cancel = context.WithCancel(root)
 	if r.aborted.Load() {
 		w.cancel()
 	}
+	w.mu.Unlock()
+}
+
+// expire replaces the worker's context by one whose deadline passed long ago (Err() == DeadlineExceeded).
+func (w *worker) expire(r *run) {
+	root := r.rootCtx()
+	w.mu.Lock()
+	w.cancel()
+	w.ctx, w.cancel = context.WithDeadline(root, time.Unix(1, 0))
 	w.mu.Unlock()
 }
 
@@ -342,101 +454,46 @@ func (r *run) leave(w *worker) {
 	w.state.Store(stHarness)
 }
 
+// liveMulti returns the worker's most recent held AcquireMulti handle over a non-empty set.
+func (w *worker) liveMulti() *handle {
+	for i := len(w.held) - 1; i >= 0; i-- {
+		if w.held[i].mctx != nil && len(w.held[i].qs) > 0 {
+			return &w.held[i]
+		}
+	}
+	return nil
+}
+
+func containsInt(l []int, x int) bool {
+	for _, y := range l {
+		if x == y {
+			return true
+		}
+	}
+	return false
+}
+
 func (r *run) exec(w *worker, op *Op) {
 	switch op.K {
-	case "acq":
-		q := r.qIndex(op.Q)
-		if !w.canBlock([]int{q}) {
-			r.event("op:acq-degraded-to-try")
-			r.doTry(w, op, q)
-			return
-		}
-		ctx := w.curCtx()
-		if ctx.Err() != nil {
-			r.event("op:acq-with-cancelled-ctx")
-		}
-		r.enter(w, "acq", []int{q})
-		rel, err := r.qs.acquire(ctx, q, r.data(op))
-		r.leave(w)
-		r.event("op:acq")
-		r.afterAcquire(w, "Acquire", ctx, []int{q}, rel, err, nil)
-	case "try":
-		r.doTry(w, op, r.qIndex(op.Q))
-	case "multi":
-		var list []int
-		seen := map[int]bool{}
-		var distinct []int
-		for _, x := range op.Qs {
-			if x < 0 {
-				list = append(list, -1)
-				continue
-			}
-			q := r.qIndex(x)
-			list = append(list, q)
-			if !seen[q] {
-				seen[q] = true
-				distinct = append(distinct, q)
-			}
-		}
-		sort.Ints(distinct)
-		if !w.canBlock(distinct) {
-			r.event("op:multi-degraded-to-try")
-			r.doTry(w, op, distinct[0])
-			return
-		}
-		ctx := w.curCtx()
-		r.enter(w, "multi", distinct)
-		mctx, rel, err := r.qs.multi(ctx, r.data(op), list)
-		r.leave(w)
-		r.event("op:multi")
-		if len(distinct) > 1 {
-			r.event("op:multi-2+queues")
-		}
-		if err == nil && mctx == nil {
-			r.violate(evid.V("multi-nil-context", "w%d AcquireMulti%v returned a nil context without error", w.id, distinct))
-			return
-		}
-		r.afterAcquire(w, "AcquireMulti", ctx, distinct, rel, err, mctx)
-	case "nested", "nestedtry":
+	case "acq", "try":
 		var h *handle
-		for i := len(w.held) - 1; i >= 0; i-- {
-			if w.held[i].mctx != nil && len(w.held[i].qs) > 0 {
-				h = &w.held[i]
-				break
-			}
+		if op.X {
+			h = w.liveMulti()
 		}
+		r.doAcquire(w, op, r.qIndex(op.Q), h, op.K == "acq")
+	case "multi":
+		r.doMulti(w, op)
+	case "nested", "nestedtry":
+		h := w.liveMulti()
 		if h == nil {
-			r.doTry(w, op, r.qIndex(op.Q))
+			r.doAcquire(w, op, r.qIndex(op.Q), nil, false)
 			return
 		}
 		x := op.Q % len(h.qs)
 		if x < 0 {
 			x += len(h.qs)
 		}
-		q := h.qs[x]
-		var rel func()
-		var err error
-		if op.K == "nested" {
-			// must return at once: the slot is already owned through the AcquireMulti context
-			r.enter(w, "nested", []int{q})
-			rel, err = r.qs.acquire(h.mctx, q, r.data(op))
-			r.leave(w)
-		} else {
-			rel, err = r.qs.try(h.mctx, q, r.data(op))
-		}
-		r.event("op:" + op.K)
-		if err != nil {
-			if op.K == "nested" && h.mctx.Err() == nil {
-				r.violate(evid.V("acquire-error-without-cancel", "w%d Acquire(q%d) inside its own AcquireMulti%v failed although its context is not cancelled: %v", w.id, q, h.qs, err))
-			}
-			return
-		}
-		if rel != nil {
-			// not counted as a holder: per the AcquireMulti contract this is a no-op handle
-			rel()
-		} else if op.K == "nested" {
-			r.violate(evid.V("acquire-nil-release-fn", "w%d Acquire(q%d) with its AcquireMulti context returned neither a release function nor an error", w.id, q))
-		}
+		r.doNested(w, op, h, h.qs[x], op.K == "nested")
 	case "rel":
 		if len(w.held) == 0 {
 			r.event("op:rel-nothing-held")
@@ -446,7 +503,7 @@ func (r *run) exec(w *worker, op *Op) {
 		if i < 0 {
 			i += len(w.held)
 		}
-		r.release(w, i)
+		r.releaseVia(w, i, op.G)
 	case "relstale":
 		if len(w.stale) == 0 {
 			return
@@ -459,6 +516,11 @@ func (r *run) exec(w *worker, op *Op) {
 		w.stale[i]()
 		r.event("op:relstale")
 	case "cancel":
+		if op.A {
+			r.cancelRoot()
+			r.event("op:cancel-root-of-all")
+			return
+		}
 		n := len(r.ws)
 		t := op.W % n
 		if t < 0 {
@@ -474,36 +536,212 @@ func (r *run) exec(w *worker, op *Op) {
 		} else {
 			r.event("op:cancel-other")
 		}
+	case "expire":
+		w.expire(r)
+		r.event("op:expire-own-deadline")
 	default:
 		// unknown op kinds are no-ops (hand-edited replay files)
 	}
 }
 
-func (r *run) doTry(w *worker, op *Op, q int) {
-	ctx := w.curCtx()
-	w.curQs, w.curOp = []int{q}, "try"
-	rel, err := r.qs.try(ctx, q, r.data(op))
-	r.event("op:try")
-	if err != nil {
-		r.event("op:try-error")
+// doNested: Acquire/TryAcquire on a queue of the held AcquireMulti h with the context it returned. Must return at
+// once (the slot is already owned through the context); the result is a no-op handle and is not counted.
+func (r *run) doNested(w *worker, op *Op, h *handle, q int, blocking bool) {
+	var rel func()
+	var err error
+	if blocking {
+		r.enter(w, "nested", []int{q})
+		rel, err = r.tqs[q].acquire(h.mctx, r.data(op))
+		r.leave(w)
+		r.event("op:nested")
+	} else {
+		rel, err = r.tqs[q].try(h.mctx, r.data(op))
+		r.event("op:nestedtry")
 	}
-	if rel == nil {
-		r.event("op:try-refused")
+	if err != nil {
+		if blocking && h.mctx.Err() == nil {
+			r.violate(evid.V("acquire-error-without-cancel", "w%d Acquire(q%d) inside its own AcquireMulti%v failed although its context is not cancelled: %v", w.id, q, h.qs, err))
+		}
 		return
 	}
-	r.hold(w, []int{q}, rel, nil)
+	if rel != nil {
+		rel()
+	} else if blocking {
+		r.violate(evid.V("acquire-nil-release-fn", "w%d Acquire(q%d) with its AcquireMulti context returned neither a release function nor an error", w.id, q))
+	}
+}
+
+// doAcquire: Acquire (blocking) or TryAcquire on queue q. h != nil: with the context of the held AcquireMulti h.
+func (r *run) doAcquire(w *worker, op *Op, q int, h *handle, blocking bool) {
+	qc := r.c.Queues[q]
+	ctx := w.curCtx()
+	if h != nil {
+		ctx = h.mctx
+	}
+	if qc.Nil {
+		// nil receiver, the way reghttp calls a host without a concurrency limit: succeeds at once, limits nothing
+		var rel func()
+		var err error
+		if blocking {
+			r.enter(w, "acq-nil-queue", []int{q})
+			rel, err = r.tqs[q].acquire(ctx, r.data(op))
+			r.leave(w)
+		} else {
+			rel, err = r.tqs[q].try(ctx, r.data(op))
+		}
+		r.event("op:acquire-on-nil-queue")
+		if err != nil || rel == nil {
+			r.violate(evid.V("nil-queue-acquire-failed", "w%d acquire on the nil queue q%d returned (release fn nil=%v, err=%v); callers (reghttp) call the release function unconditionally", w.id, q, rel == nil, err))
+			return
+		}
+		rel()
+		return
+	}
+	errExpected := false
+	if h != nil {
+		same := r.c.Queues[h.qs[0]].Elem == qc.Elem
+		switch {
+		case same && containsInt(h.qs, q):
+			r.doNested(w, op, h, q, blocking)
+			return
+		case same:
+			// documented: "Attempting to acquire other resources ... using the returned context will fail"
+			errExpected = true
+			r.event("x:acquire-outside-transaction")
+		default:
+			// "another type is using the context, treat it as unset": an ordinary acquire
+			r.event("x:acquire-with-other-type-multi-ctx")
+		}
+	}
+	if blocking && !w.canBlock([]int{q}) {
+		r.event("op:acq-degraded-to-try")
+		blocking = false
+	}
+	if !blocking {
+		w.curQs, w.curOp = []int{q}, "try"
+		rel, err := r.tqs[q].try(ctx, r.data(op))
+		r.event("op:try")
+		if err != nil {
+			r.event("op:try-error")
+		}
+		if rel == nil {
+			r.event("op:try-refused")
+			return
+		}
+		r.hold(w, []int{q}, rel, nil)
+		return
+	}
+	if ctx.Err() != nil {
+		r.event("op:acq-with-cancelled-ctx")
+		if ctx.Err() == context.DeadlineExceeded {
+			r.event("op:acq-with-expired-deadline")
+		}
+	}
+	r.enter(w, "acq", []int{q})
+	rel, err := r.tqs[q].acquire(ctx, r.data(op))
+	r.leave(w)
+	r.event("op:acq")
+	r.afterAcquire(w, "Acquire", ctx, []int{q}, rel, err, nil, errExpected)
+}
+
+func (r *run) doMulti(w *worker, op *Op) {
+	// the element type of the call is that of the first real queue in the list; queues of the other type are left out
+	typed, empty := false, false
+	var list, distinct []int
+	nils, dropped, dups := 0, 0, 0
+	for _, x := range op.Qs {
+		if x < 0 {
+			list = append(list, -1)
+			nils++
+			continue
+		}
+		q := r.qIndex(x)
+		qc := r.c.Queues[q]
+		if qc.Nil {
+			list = append(list, -1)
+			nils++
+			continue
+		}
+		if !typed {
+			typed, empty = true, qc.Elem == "empty"
+		}
+		if (qc.Elem == "empty") != empty {
+			dropped++
+			continue
+		}
+		list = append(list, q)
+		if containsInt(distinct, q) {
+			dups++
+		} else {
+			distinct = append(distinct, q)
+		}
+	}
+	sort.Ints(distinct)
+	var h *handle
+	if op.X {
+		h = w.liveMulti()
+	}
+	if !w.canBlock(distinct) {
+		r.event("op:multi-degraded-to-try")
+		r.doAcquire(w, op, distinct[0], h, false)
+		return
+	}
+	ctx := w.curCtx()
+	errExpected := false
+	if h != nil {
+		// a second AcquireMulti with the context of the first (same or other element type) is documented to fail
+		ctx = h.mctx
+		errExpected = true
+		if (r.c.Queues[h.qs[0]].Elem == "empty") != empty {
+			r.event("x:multi-with-other-type-multi-ctx")
+		} else {
+			r.event("x:multi-with-own-multi-ctx")
+		}
+	}
+	r.enter(w, "multi", distinct)
+	mctx, rel, err := r.callMulti(ctx, r.data(op), list, empty)
+	r.leave(w)
+	r.event("op:multi")
+	if len(distinct) > 1 {
+		r.event("op:multi-2+queues")
+	}
+	if nils > 0 {
+		r.event("op:multi-with-nil-entries")
+	}
+	if dups > 0 {
+		r.event("op:multi-with-duplicates")
+	}
+	if dropped > 0 {
+		r.event("op:multi-other-type-left-out")
+	}
+	if len(distinct) == 0 {
+		r.event("op:multi-empty-or-all-nil")
+	}
+	if err == nil && mctx == nil {
+		r.violate(evid.V("multi-nil-context", "w%d AcquireMulti%v returned a nil context without error", w.id, distinct))
+		return
+	}
+	if err != nil && errExpected && ctx.Err() == nil {
+		r.event("x:multi-refused-as-documented")
+	}
+	r.afterAcquire(w, "AcquireMulti", ctx, distinct, rel, err, mctx, errExpected)
 }
 
 // afterAcquire applies the result oracles of a blocking acquire: an error is
-// only allowed for a cancelled context and then nothing is held; success comes
+// only allowed for a cancelled context (or for the documented misuse of an
+// AcquireMulti context, errExpected) and then nothing is held; success comes
 // with a release function.
-func (r *run) afterAcquire(w *worker, what string, ctx context.Context, qs []int, rel func(), err error, mctx context.Context) {
+func (r *run) afterAcquire(w *worker, what string, ctx context.Context, qs []int, rel func(), err error, mctx context.Context, errExpected bool) {
 	if err != nil {
 		if rel != nil {
 			r.violate(evid.V("acquire-error-with-release-fn", "w%d %s%v returned error %v together with a release function", w.id, what, qs, err))
 		}
 		if ctx.Err() == nil {
-			r.violate(evid.V("acquire-error-without-cancel", "w%d %s%v failed although its context is not cancelled: %v", w.id, what, qs, err))
+			if !errExpected {
+				r.violate(evid.V("acquire-error-without-cancel", "w%d %s%v failed although its context is not cancelled: %v", w.id, what, qs, err))
+			}
+			r.event("res:documented-misuse-error")
+			return
 		}
 		r.event("res:cancelled-acquire-error")
 		w.renew(r)
@@ -535,15 +773,48 @@ func (r *run) hold(w *worker, qs []int, rel func(), mctx context.Context) {
 }
 
 // release un-counts the holder BEFORE calling the release function.
-func (r *run) release(w *worker, i int) {
+func (r *run) release(w *worker, i int) { r.releaseVia(w, i, false) }
+
+// releaseVia: other = the release function is called by another goroutine than the one that acquired (reghttp:
+// whoever closes the response). Owned schedule: the worker waits for that goroutine, which parks at the hooks in the
+// worker's name. Free engine, plain handles: the goroutine runs concurrently with the worker's next operations.
+func (r *run) releaseVia(w *worker, i int, other bool) {
 	h := w.held[i]
 	w.held = append(w.held[:i:i], w.held[i+1:]...)
 	for _, q := range h.qs {
 		r.holders[q].Add(-1)
 	}
 	w.curQs, w.curOp = h.qs, "rel"
-	h.rel()
-	w.stale = append(w.stale, h.rel)
+	switch {
+	case !other:
+		h.rel()
+		w.stale = append(w.stale, h.rel)
+	case r.asyncRelease && h.mctx == nil:
+		r.helpers.Add(1)
+		r.helperN.Add(1)
+		go func() {
+			defer r.helpers.Done()
+			defer r.helperN.Add(-1)
+			defer func() {
+				if p := recover(); p != nil {
+					r.violate(panicViolation(w, p))
+				}
+			}()
+			h.rel()
+		}()
+		r.event("op:rel-concurrently-by-other-goroutine")
+	default:
+		done := make(chan any, 1)
+		go func() {
+			defer func() { done <- recover() }()
+			h.rel()
+		}()
+		if p := <-done; p != nil {
+			panic(p)
+		}
+		w.stale = append(w.stale, h.rel)
+		r.event("op:rel-by-other-goroutine")
+	}
 	r.event("op:rel")
 }
 
@@ -566,9 +837,12 @@ func (r *run) drain() *evid.Violation {
 	}
 	ctx := context.Background()
 	for q := range r.max {
+		if r.c.Queues[q].Nil {
+			continue
+		}
 		var rels []func()
 		for i := 0; i < r.max[q]+2; i++ {
-			rel, err := r.qs.try(ctx, q, reqmeta.Data{})
+			rel, err := r.tqs[q].try(ctx, reqmeta.Data{})
 			if err != nil {
 				return evid.V("drain-tryacquire-error", "q%d: TryAcquire on the idle queue failed: %v", q, err)
 			}
@@ -587,7 +861,7 @@ func (r *run) drain() *evid.Violation {
 			return evid.V("drain-slot-duplicated", "q%d (limit %d): after all workers finished %d TryAcquire succeeded", q, r.max[q], len(rels))
 		}
 		// once more after releasing the probes: the queue must be reusable
-		rel, _ := r.qs.try(ctx, q, reqmeta.Data{})
+		rel, _ := r.tqs[q].try(ctx, reqmeta.Data{})
 		if rel == nil {
 			return evid.V("drain-slot-lost", "q%d (limit %d): queue refuses TryAcquire after the drain probes were released", q, r.max[q])
 		}
@@ -599,9 +873,9 @@ func (r *run) drain() *evid.Violation {
 // describe renders the per-worker status for violation messages.
 func (r *run) describe(withHeld bool) string {
 	var sb strings.Builder
-	fmt.Fprintf(&sb, "elem=%q ", r.c.Elem)
 	for q := range r.max {
-		fmt.Fprintf(&sb, "q%d{max=%d next=%q holders=%d} ", q, r.max[q], r.c.Queues[q].Next, r.holders[q].Load())
+		qc := r.c.Queues[q]
+		fmt.Fprintf(&sb, "q%d{max=%d(limit %d) next=%q elem=%q nil=%v holders=%d} ", q, qc.Max, qc.limit(), qc.Next, qc.Elem, qc.Nil, r.holders[q].Load())
 	}
 	for _, w := range r.ws {
 		st := w.state.Load()
